@@ -63,3 +63,23 @@ fn u14_4_version_gates() {
     assert!(bh.is_some() == (had.4 && version >= AdtVersion::MoP) && bb.is_some() == (had.5 && version >= AdtVersion::MoP), "blend mesh headers/bounds kept from MoP on");
     assert!(bv.is_some() == (had.6 && version >= AdtVersion::MoP) && bi.is_some() == (had.7 && version >= AdtVersion::MoP), "blend mesh vertices/indices kept from MoP on");
 }
+
+// ------------------------------------------------------------------------------------ U14.7 MCLQ height gate (E11 block)
+// MclqChunk::read_options refuses a body whose height range looks corrupted.  Everything the serializer can emit for a real liquid
+// - any finite range within the world's vertical extent, INCLUDING a level surface (min == max: open ocean, lakes) - must pass the
+// gate, or the liquid silently disappears on parse (the MCNK reader swallows the error); NaN / infinite / inverted ranges do not pass
+// @harness unit=U14.7 props=C14 kind=complete timeout=300 target="chunks/mcnk/mclq.rs: MclqChunk::read_options height validity statement (E11 block), every pair of f32 bit patterns" oracle=adt_water
+#[kani::proof]
+#[kani::unwind(4)]
+#[kani::stub(alloc::fmt::format, stub_format)]
+fn u14_7_mclq_height_gate() {
+    let lo: f32 = kani::any();
+    let hi: f32 = kani::any();
+    let ok = blk_mclq_heights_valid(lo, hi);
+    if lo.is_finite() && hi.is_finite() && lo >= -10000.0 && hi <= 10000.0 && lo <= hi {
+        assert!(ok, "a finite, ordered (possibly level) height range inside the vertical extent is accepted");
+    }
+    if lo.is_nan() || hi.is_nan() || lo.is_infinite() || hi.is_infinite() || lo > hi {
+        assert!(!ok, "NaN, infinite or inverted ranges are refused");
+    }
+}
